@@ -233,7 +233,7 @@ def r5_registration(ctx):
     if ctx.floor('TimerQueue::add reachable from Sleep::poll', len(reg), 1):
         s = reg[0]
         g = s.fn
-        t_time = peel(g.expr_operand(s.args[2], s.b, 'T'))
+        t_time = peel(resolve_captures(P, g, g.expr_operand(s.args[2], s.b, 'T')))
         ctx.check(any(x[0] == 'field' and x[2] == 'deadline' for x in walk(t_time)) or 'deadline' in show(t_time), 'register-at-deadline',
                   'the timer entry is registered at the sleep\'s deadline', s.where(), show(t_time))
     wc = fp.calls_to(D + 'Driver::with_current')
